@@ -114,6 +114,7 @@ def explore(
     per_path_timeout: float = 30.0,
     max_paths: int = 10**9,
     on_confirmed: Optional[Callable[[Dict[str, Any], Any], None]] = None,
+    sample_when: Optional[Callable[[int], bool]] = None,
 ) -> Exploration:
     """Symbolically execute *harness* over all paths (see module docstring)."""
     SOLVER_STATS.install()
@@ -192,11 +193,14 @@ def explore(
                 else:
                     status = VerificationStatus.CONFIRMED
                     out.confirmed_paths += 1
-                    if on_confirmed is not None:
+                    if on_confirmed is not None and (sample_when is None or sample_when(out.confirmed_paths)):
                         # detach first: realizing sample values must not add decisions to the search tree
-                        with ResumedTracing():
-                            space.detach_path()
-                        on_confirmed({**pre_args.arguments, **_inst.FRESH}, ret)
+                        try:
+                            with ResumedTracing():
+                                space.detach_path()
+                            on_confirmed({**pre_args.arguments, **_inst.FRESH}, ret)
+                        except IgnoreAttempt:
+                            pass  # a deferred assumption of an unused argument failed: no sample, the path stays confirmed
             except IgnoreAttempt:
                 status = None
                 out.ignored_paths += 1
